@@ -9,7 +9,7 @@ EXPLANATION = ('Two places where an unsat answer can be manufactured without any
                'exhaustive truth table, to be a consequence of the gate definition (an extra or wrong clause makes a satisfiable input unsatisfiable); the dispatch '
                'sends every connective to its own encoder; literal signs follow the parity of negations; let bindings are parsed before any is inserted; '
                '(2) SatELite variable elimination never touches a frozen variable (theory atoms, assumption and frame variables), which no baseline test exercises '
-               'because elimination only runs with incremental mode off. Conflict analysis, theory explanations, preprocessing and the theory solvers are value-dependent '
+               'because elimination only runs with incremental mode off; (3) conflict-clause minimisation restores its scratch marks on every negative exit. The rest of conflict analysis, theory explanations, preprocessing and the theory solvers are value-dependent '
                'and not decided.')
 
 
@@ -23,4 +23,5 @@ def run(src, tier, seed):
     satrules.toplevel_rule(res, fx)
     satrules.let_rule(res, fx)
     satrules.elimination_rule(res, fx)
+    satrules.minimisation_rule(res, fx)
     return res
